@@ -32,6 +32,7 @@ fn main() {
         eprintln!("INCONCLUSIVE: no check for property {id}");
         std::process::exit(2)
     };
+    install_abort_handler(&id);
     let seed: u64 = std::env::var("VERIF_SEED").ok().and_then(|s| s.trim().parse().ok()).unwrap_or(0);
     let known = load_known();
 
@@ -85,6 +86,7 @@ fn main() {
             }
         }
         let mut acc = Acc::new();
+        let _guard = CaseGuard::enter(&v["case"], &phase);
         let r = if phase.starts_with("fuzz") { vp::fuzzrun::replay(&cx, &v["case"], &mut acc) } else { (def.replay)(&cx, &phase, &v["case"], &mut acc) };
         match r {
             Ok(()) => {
